@@ -465,6 +465,70 @@ fn run_sweep(t: &[&str], o: &mut Oracle) -> String {
     }
 }
 
+fn kind_of_char(k: &str) -> K {
+    match k {
+        "5" => K::I5,
+        "6" => K::I6,
+        "p" => K::I6Dp,
+        "d" => K::I664,
+        "x" => K::I6Ex,
+        "m" => K::I6More,
+        "7" => K::I7,
+        _ => panic!("bad kind"),
+    }
+}
+
+fn kind_char(k: K) -> &'static str {
+    match k {
+        K::I5 => "5",
+        K::I6 => "6",
+        K::I6Dp => "p",
+        K::I664 => "d",
+        K::I6Ex => "x",
+        K::I6More => "m",
+        K::I7 => "7",
+    }
+}
+
+/// `hc`: every tuple of values for the count fields
+fn run_counts(t: &[&str], o: &mut Oracle) -> String {
+    let kc = t[0];
+    let k = kind_of_char(kc);
+    let pre = parse_hex(t[1]).expect("hex");
+    let suf = parse_hex(t[2]).expect("hex");
+    let vals: Vec<i32> = t[3].split(',').map(|x| x.parse().expect("value")).collect();
+    let nf = if k == K::I5 { 2 } else { 4 };
+    let encs: Vec<Vec<u8>> = vals.iter().map(|&v| enc_int(k, v)).collect();
+    let n = vals.len() as u64;
+    let r = catch(|| {
+        let mut h = FNV_OFFSET;
+        let mut buf: Vec<u8> = vec![];
+        let total = n.pow(nf);
+        for c in 0..total {
+            buf.clear();
+            buf.extend_from_slice(&pre);
+            for j in 0..nf {
+                buf.extend_from_slice(&encs[((c / n.pow(nf - 1 - j)) % n) as usize]);
+            }
+            buf.extend_from_slice(&suf);
+            let s = info_result(kc, &buf, o);
+            h = fnv_bytes(h, s.as_bytes());
+            h = fnv_byte(h, 10);
+        }
+        (h, total)
+    });
+    match r {
+        Ok((h, cnt)) => {
+            o.add("count_tuples_swept", cnt);
+            format!("h {}", h)
+        }
+        Err(msg) => {
+            o.fail("C18/parse-panic", format!("{} request=hc {}", msg, t.join(" ")));
+            "panic".to_string()
+        }
+    }
+}
+
 struct R;
 
 impl Runner for R {
@@ -472,6 +536,7 @@ impl Runner for R {
         match t {
             ["p", h] => run_parse(&parse_hex(h).expect("hex"), o),
             ["hs", rest @ ..] if rest.len() == 5 => run_sweep(rest, o),
+            ["hc", rest @ ..] if rest.len() == 4 => run_counts(rest, o),
             [op @ ("m" | "mf" | "mh" | "mfh"), rest @ ..] if !rest.is_empty() => run_merge(op, rest, o),
             _ => "bad-op".to_string(),
         }
@@ -671,13 +736,23 @@ fn gen_text(rng: &mut Rng, max_chars: u64) -> Vec<u8> {
     v
 }
 
+const SHARED_NAMES: &[&[u8]] = &[b"(connecting)", b"nameless tee", b"x", b""];
+
 fn gen_client(rng: &mut Rng, uniq: usize, k: K) -> GClient {
-    let mut name = format!("p{}", uniq).into_bytes();
-    name.extend(gen_text(rng, 4));
+    // a third of the clients share their name with others ("(connecting)", "nameless tee"); they
+    // stay pairwise different through the country, whose order is unrelated to the wire order
+    let shared = rng.chance(1, 3);
+    let name = if shared {
+        rng.pick(SHARED_NAMES).to_vec()
+    } else {
+        let mut name = format!("p{}", uniq).into_bytes();
+        name.extend(gen_text(rng, 4));
+        name
+    };
     GClient {
         name,
-        clan: gen_text(rng, 5),
-        country: if rng.chance(1, 4) { -1 } else { rng.range(0, 900) as i32 },
+        clan: if shared && rng.chance(1, 2) { b"clan".to_vec() } else { gen_text(rng, 5) },
+        country: if shared { ((uniq * 37 + 11) % 256) as i32 + 1000 } else if rng.chance(1, 4) { -1 } else { rng.range(0, 900) as i32 },
         score: if rng.chance(1, 8) { rng.next() as i32 } else { rng.range(-5, 500) as i32 },
         is_player: if k == K::I7 { rng.below(4) as i32 } else { rng.below(2) as i32 },
     }
@@ -711,7 +786,9 @@ const INT_TEXTS: &[&[u8]] = &[
     b"0", b"-0", b"+0", b"1", b"-1", b"+1", b"2", b"15", b"16", b"17", b"23", b"24", b"25", b"62", b"63", b"64", b"65", b"66", b"127", b"128",
     b"255", b"256", b"65535", b"65536", b"2147483646", b"2147483647", b"2147483648", b"+2147483647", b"+2147483648", b"-2147483647",
     b"-2147483648", b"-2147483649", b"4294967295", b"4294967296", b"4294967360", b"-4294967232", b"99999999999999999999",
-    b"-99999999999999999999", b"18446744073709551680", b"", b"-", b"+", b"+-1", b"-+1", b"--1", b"00064", b"-00064", b"+00064",
+    b"-99999999999999999999", b"18446744073709551680", b"-4294967295", b"-4294967296", b"-4294967297", b"9223372036854775807",
+    b"9223372036854775808", b"-9223372036854775808", b"-9223372036854775809", b"18446744073709551615", b"18446744073709551616",
+    b"2147483649", b"-2147483650", b"4294967294", b"4294967297", b"", b"-", b"+", b"+-1", b"-+1", b"--1", b"00064", b"-00064", b"+00064",
     b"0000000000000000000000064", b" 64", b"64 ", b"6 4", b"0x40", b"64.0", b"1e2", b"\xef\xbc\x96\xef\xbc\x94", b"\xd9\xa6\xd9\xa4", b"6\xff4",
     b"\xff", b"\xc0\xb1", b"64a", b"a", b"1_0",
 ];
@@ -1100,6 +1177,29 @@ impl Domain for D {
             let mut pre = name_pre.to_vec();
             pre.extend(vec![b'x'; fill]);
             writeln!(w, "hs 6 {} {} {} {}", to_hex(&pre), to_hex(b"\0\00\01\01\0"), to_hex(b"a\xc3\xa9\xe2\x82\xac\xf0\x9f\x98\x80"), if thorough { 6 } else { 4 }).unwrap();
+        }
+
+        // ---- the four count fields jointly (every tuple over the boundary values), per kind
+        {
+            let vals: &[i32] = if thorough {
+                &[-0x80000000, -2, -1, 0, 1, 2, 3, 15, 16, 17, 63, 64, 65, 0x7ffffffe, 0x7fffffff]
+            } else {
+                &[-1, 0, 1, 2, 15, 16, 17, 63, 64, 65, 0x7fffffff]
+            };
+            let vs: Vec<String> = vals.iter().map(|v| v.to_string()).collect();
+            for &k in KINDS {
+                if k == K::I6More {
+                    continue;
+                }
+                for nc in [0usize, 2] {
+                    let g = gen_info(&mut rng, k, nc as i32);
+                    let clients: Vec<GClient> = (0..nc).map(|u| gen_client(&mut rng, u, k)).collect();
+                    let f = fields(k, &g, 0, 0, &clients);
+                    let first = f.iter().position(|x| x.1 == "num_players").unwrap();
+                    let last = f.iter().rposition(|x| x.1 == "max_clients" || x.1 == "max_players").unwrap();
+                    writeln!(w, "hc {} {} {} {}", kind_char(k), to_hex(&flatten(&f[..first])), to_hex(&flatten(&f[last + 1..])), vs.join(",")).unwrap();
+                }
+            }
         }
 
         // =========================== merging ===========================
